@@ -23,6 +23,7 @@ import (
 	"encoding/base64"
 	"encoding/pem"
 	"fmt"
+	"io"
 	"net/http"
 	"net/http/httptest"
 	"net/url"
@@ -369,6 +370,15 @@ func (lw *longWorld) mutate(m string) {
 		if r := lw.st.Reqs[id]; r != nil {
 			r.IsDone = true
 		}
+	case strings.HasPrefix(m, "failed-write:"):
+		// a client goes away while its auto-submit page / body is being written: serve a reply on the long-lived provider
+		// through a writer that accepts a few bytes and then fails.  Nothing of it may surface in later replies.
+		var cut int
+		var id string
+		fmt.Sscanf(m, "failed-write:%d:%s", &cut, &id)
+		rec := httptest.NewRecorder()
+		fw := &failingWriter{ResponseRecorder: rec, left: cut}
+		serveOn(lw.prov.HttpHandler(), HTTPReq{Method: "GET", Path: "/login", Host: "idp-a.example.com", Query: "id=" + url.QueryEscape(id)}, fw, rec)
 	case strings.HasPrefix(m, "rename-user:"):
 		id := strings.TrimPrefix(m, "rename-user:")
 		for _, tbl := range []map[string]*User{w.Users, lw.st.Users} {
@@ -417,7 +427,8 @@ func c15RandomOp(rng *Rng, w *WorldSpec, n int) c15Op {
 	host := hosts[rng.intn(len(hosts))]
 	marker := fmt.Sprintf("m%04d", n)
 	if rng.chance(22) {
-		muts := []string{"rotate-key", "key-fault-next", fmt.Sprintf("reregister:%d", rng.intn(2)), "rename-user:uid-1"}
+		muts := []string{"rotate-key", "key-fault-next", fmt.Sprintf("reregister:%d", rng.intn(2)), "rename-user:uid-1",
+			fmt.Sprintf("failed-write:%d:ar-done", []int{0, 300, 700}[rng.intn(3)])}
 		var pend []string
 		for id, r := range w.Recs {
 			if !r.IsDone {
@@ -589,6 +600,25 @@ func (s *stallWriter) Write(b []byte) (int, error) {
 		<-s.gate
 	})
 	return s.ResponseRecorder.Write(b)
+}
+
+// failingWriter accepts `left` bytes and then reports a closed connection
+type failingWriter struct {
+	*httptest.ResponseRecorder
+	left int
+}
+
+func (f *failingWriter) Write(b []byte) (int, error) {
+	if f.left <= 0 {
+		return 0, io.ErrClosedPipe
+	}
+	if len(b) > f.left {
+		n, _ := f.ResponseRecorder.Write(b[:f.left])
+		f.left = 0
+		return n, io.ErrClosedPipe
+	}
+	f.left -= len(b)
+	return f.ResponseRecorder.Write(b)
 }
 
 func serveOn(h http.Handler, r HTTPReq, w http.ResponseWriter, rec *httptest.ResponseRecorder) (rep Reply) {
